@@ -68,9 +68,13 @@ def gen_request(method, R, distinct=True):
                 tv[-1] = (tv[0][0], tv[-1][1])          # duplicate key: last wins
         elif tail[0] == "seq":
             tv = [distinct_text(R, "e%d" % j) if R.random() < 0.8 else gen_text(R) for j in range(n)]
+            if n >= 2 and R.random() < 0.25:
+                tv[R.randrange(1, n)] = tv[0]           # the same element named twice: still one entry per position
         else:
             tv = [(gen_int(R), gen_mode(R), distinct_text(R, "g%d" % j), distinct_text(R, "s%d" % j),
                    gen_int(R) + 1, gen_int(R) + 2, gen_text(R)) for j in range(n)]
+            if n >= 2 and R.random() < 0.2:
+                tv[R.randrange(1, n)] = tv[0]           # two identical table descriptors
     return fixed, tv
 
 
